@@ -46,7 +46,7 @@
 //       proto "<name>" build an OrangeInput through the construction API (orangeinp UnitProto +
 //                     InputBuilder; scenarios spheres, bgspheres, boxes-cyls, daughters,
 //                     labels-at, empty-region)                       -> ok Input S
-//       nav  <Input>  build OrangeParams from x and from rt(x), track 32 LCG rays through both
+//       nav  <Input>  build OrangeParams from x and from rt(x), track 128 LCG rays through both
 //                     -> ok same <nsteps> | ok diff <ray> | err <kind>
 #include <cmath>
 #include <cstdlib>
@@ -754,7 +754,7 @@ static json op_nav(json const& p)
         return out;
     };
     std::uint64_t nsteps = 0;
-    for (int ray = 0; ray < 32; ++ray)
+    for (int ray = 0; ray < 128; ++ray)
     {
         GeoTrackInitializer init;
         for (int a = 0; a < 3; ++a)
@@ -924,7 +924,12 @@ static json op_proto(json const& p)
     if (!p.is_string())
         throw BadOp{};
     auto global = cproto::scenario(p.get<string>());
-    celeritas::orangeinp::InputBuilder build_input;
+    // non-default tolerance (InputBuilder expects a valid one)
+    celeritas::orangeinp::InputBuilder build_input([] {
+        celeritas::orangeinp::InputBuilder::Options o;
+        o.tol = Tolerance<>::from_relative(1e-6, 1.0);
+        return o;
+    }());
     OrangeInput x = build_input(*global);
     return dump_Input(x);
 }
